@@ -6,6 +6,7 @@ import (
 	"testing"
 	"time"
 
+	"github.com/douban/gobeansdb/verifkit"
 	"pgregory.net/rapid"
 )
 
@@ -106,6 +107,9 @@ func (r *histRunner) doGCPark(op *Op) error {
 						r.label("transient_read_during_relocation")
 						e = nil
 					}
+				case "rotate":
+					// the data head moves on to the next file while the pass is under way
+					e = r.doRotate(cop)
 				case "dumphints":
 					// one round of the periodic hint dumper while the pass is under way
 					e = r.doDumpHints()
@@ -163,7 +167,7 @@ func genPlacement(t *rapid.T, c *Cfg, p *genProfile) Placement {
 		"gc.rec.hinted", "gc.src.begin", "gc.src.cleared", "gc.dst.switch"}).Draw(t, "point")
 	pl.Nth = rapid.IntRange(1, 6).Draw(t, "nth")
 	pl.Cancel = rapid.IntRange(0, 9).Draw(t, "cancel") == 0
-	kinds := []string{"set", "set", "set", "set", "delete", "get", "dumphints"}
+	kinds := []string{"set", "set", "set", "set", "delete", "get", "dumphints", "rotate"}
 	inGrp := make([]bool, len(c.Keys))
 	gen := rapid.Custom(func(t *rapid.T) Op { return genOp(t, c, p, kinds, inGrp) })
 	pl.Ops = rapid.SliceOfN(gen, 1, 4).Draw(t, "ops")
@@ -221,14 +225,81 @@ var c05GCCollide = &histCheck{
 		p.groups = true
 		p.maxKeys = 6
 		p.noExplicit = true
+		p.postCfg = func(t *rapid.T, c *Cfg) {
+			c.SplitCap = rapid.SampledFrom([]int64{2, 2, 3, 5, 16}).Draw(t, "splitcap_c05") // dumper rounds find full splits
+		}
 		return p
 	},
 	postGen: func(t *rapid.T, h *History) {
+		// 1-2 keys of a collision group that nothing touches before the first pass: "key1 is set before gc, and key2
+		// after that" (gc.go BeforeBucket) needs a sibling that is written for the first time while GC is under way
+		first := len(h.Cfg.Keys)
+		seen := map[string]bool{}
+		for _, k := range h.Cfg.Keys {
+			seen[string(k)] = true
+		}
+		nf := rapid.IntRange(1, 2).Draw(t, "nfresh")
+		var fresh []int
+		for i := 0; i < nf; i++ {
+			k := genKey(t, "fresh"+itoa(i)+".")
+			if seen[string(k)] {
+				continue
+			}
+			seen[string(k)] = true
+			h.Cfg.Keys = append(h.Cfg.Keys, k)
+			fresh = append(fresh, len(h.Cfg.Keys)-1)
+		}
+		if len(fresh) > 0 {
+			// their group: one key the history has been using (outside the generated groups, so that the collision cannot
+			// have been noticed before the pass) plus the untouched ones
+			inGrp := map[int]bool{}
+			for _, g := range h.Cfg.Groups {
+				for _, k := range g {
+					inGrp[k] = true
+				}
+			}
+			var free []int
+			for k := 0; k < first; k++ {
+				if !inGrp[k] {
+					free = append(free, k)
+				}
+			}
+			if len(free) > 0 {
+				e := free[rapid.IntRange(0, len(free)-1).Draw(t, "anchor")]
+				h.Cfg.Groups = append(h.Cfg.Groups, append([]int{e}, fresh...))
+			} else {
+				if len(h.Cfg.Groups) == 0 {
+					h.Cfg.Groups = [][]int{{0}}
+				}
+				h.Cfg.Groups[0] = append(h.Cfg.Groups[0], fresh...)
+			}
+		}
 		c05GCTraffic.postGen(t, h)
 		// only passes with the merge step: without it GC cannot tell colliding keys apart (known finding C13-gc-nomerge)
 		for i := range h.Ops {
-			if h.Ops[i].Kind == "gcpark" {
-				h.Ops[i].Merge = true
+			if h.Ops[i].Kind != "gcpark" {
+				continue
+			}
+			h.Ops[i].Merge = true
+			if len(h.Cfg.Keys) > first && rapid.IntRange(0, 1).Draw(t, "template") == 0 {
+				// the situation the merge step exists for: a sibling is written for the first time early in the pass, the
+				// head moves on, and the periodic hint dumper comes by before GC reaches the older sibling's record
+				pl := Placement{Point: rapid.SampledFrom([]string{"gc.src.begin", "gc.rec.checked"}).Draw(t, "tpoint"), Nth: rapid.IntRange(1, 2).Draw(t, "tnth")}
+				fk := rapid.IntRange(first, len(h.Cfg.Keys)-1).Draw(t, "tfresh")
+				pl.Ops = []Op{
+					{Kind: "set", K: fk, V: verifkit.ValSpec{Class: "text", Size: rapid.IntRange(1, 200).Draw(t, "tsize"), Salt: 7}},
+					{Kind: "rotate", K: rapid.IntRange(0, first-1).Draw(t, "trot"), V: verifkit.ValSpec{Salt: 3}},
+					{Kind: "dumphints"},
+				}
+				h.Ops[i].Places = append([]Placement{pl}, h.Ops[i].Places...)
+			}
+			for j := range h.Ops[i].Places {
+				pl := &h.Ops[i].Places[j]
+				for k := range pl.Ops {
+					if pl.Ops[k].Kind == "set" && len(h.Cfg.Keys) > first && rapid.IntRange(0, 2).Draw(t, "tofresh") == 0 {
+						pl.Ops[k].K = rapid.IntRange(first, len(h.Cfg.Keys)-1).Draw(t, "freshk")
+					}
+				}
 			}
 		}
 	},
